@@ -6,6 +6,7 @@ import (
 	"os"
 	"path/filepath"
 	"runtime/debug"
+	"strings"
 	"sync"
 	"sync/atomic"
 	"testing"
@@ -17,9 +18,47 @@ import (
 
 var exitCode atomic.Int32
 
+// aggkitErrorLog: file receiving the node's error-level log lines (only with VERIF_LOG_ERRORS)
+var aggkitErrorLog string
+
+// errorLogTail returns the last lines of the node's error log that contain one of the substrings
+func errorLogTail(n int, subs ...string) []string {
+	if aggkitErrorLog == "" {
+		return nil
+	}
+	b, err := os.ReadFile(aggkitErrorLog)
+	if err != nil {
+		return nil
+	}
+	if len(b) > 4<<20 {
+		b = b[len(b)-4<<20:]
+	}
+	var out []string
+	for _, l := range strings.Split(string(b), "\n") {
+		for _, s := range subs {
+			if strings.Contains(l, s) {
+				if len(l) > 400 {
+					l = l[:400]
+				}
+				out = append(out, l)
+				break
+			}
+		}
+	}
+	if len(out) > n {
+		out = out[len(out)-n:]
+	}
+	return out
+}
+
 func TestMain(m *testing.M) {
 	// the repo logger is extremely chatty (debug lines per step) – only fatals are kept
 	log.Init(log.Config{Environment: log.EnvironmentProduction, Level: "fatal", Outputs: []string{"stderr"}})
+	if os.Getenv("VERIF_LOG_ERRORS") != "" {
+		// diagnosis aid: the node's error-level log lines go to a file in the scratch area
+		aggkitErrorLog = filepath.Join(os.Getenv("VERIF_SCRATCH"), "aggkit-errors.log")
+		log.Init(log.Config{Environment: log.EnvironmentProduction, Level: "error", Outputs: []string{aggkitErrorLog}})
+	}
 	// an unexpected fatal from a retry handler must be an observable event, not a dead run
 	aggsync.LogFatalf = func(format string, args ...any) {
 		panic(fatalSentinel{msg: fmt.Sprintf(format, args...)})
